@@ -151,3 +151,70 @@ def transposeAvx (input : Array UInt8) (rows : Nat) (choose : Nat → Nat → Na
 
 end Outer
 end PolytuneModel.Avx
+
+/-! ### An executable form of the same model
+
+    Evaluating `transpose128` on closures recomputes every earlier loop for every bit (and a definition that RETURNS a function is compiled
+    with the function's arguments as its own, so nothing is shared between two bits). `transpose128A` tabulates the 64 × 256 bits of the
+    register file in an array after every loop; read back through `ofArr` it is `transpose128` on all 64 registers (`transpose128A_eq`).
+    The driver runs the `M` forms against the real function; the theorems are about the plain forms. -/
+namespace PolytuneModel.Avx
+
+def toArr (s : Regs Bool) : Array Bool := Array.ofFn (n := 16384) (fun i => s (i.val / 256) (i.val % 256))
+def ofArr (a : Array Bool) : Regs Bool := fun r q => a.getD (256 * r + q) false
+
+theorem ofArr_toArr (s : Regs Bool) (r q : Nat) (hr : r < 64) (hq : q < 256) : ofArr (toArr s) r q = s r q := by
+  have hlt : 256 * r + q < 16384 := by omega
+  have e1 : (256 * r + q) / 256 = r := by omega
+  have e2 : (256 * r + q) % 256 = q := by omega
+  simp [ofArr, toArr, Array.getD, hlt, e1, e2]
+
+def transpose128A (s : Regs Bool) : Array Bool :=
+  let a := toArr s
+  let a := toArr (stage t2x2 1 (ofArr a))
+  let a := toArr (stage (pswap 2 (maskN 1)) 1 (ofArr a))
+  let a := toArr (stage (pswap 4 (maskN 2)) 2 (ofArr a))
+  let a := toArr (stage (pswap 8 (maskN 3)) 4 (ofArr a))
+  let a := toArr (stage (pswap 16 (maskN 4)) 8 (ofArr a))
+  let a := toArr (stage (pswap 32 (maskN 5)) 16 (ofArr a))
+  toArr (stage pswap64 32 (ofArr a))
+
+namespace Outer
+
+/-- byte `b` of row `k` read from the tabulated register file -/
+def rowByteA (a : Array Bool) (k b : Nat) : UInt8 := rowByte (ofArr a) k b
+
+def storeSquareA (o : Array UInt8) (a : Array Bool) (outStride off nrows : Nat) : Array UInt8 :=
+  (List.range nrows).foldl (fun o k => (List.range 16).foldl (fun o b => o.setIfInBounds (off + k * outStride + b) (rowByteA a k b)) o) o
+
+def groupM (input : Array UInt8) (inStride outStride i j g : Nat) (o : Array UInt8) : Array UInt8 :=
+  (List.range g).foldl (fun o block =>
+    storeSquareA o (transpose128A (loadSquare input inStride (i * 128 * inStride + j * 16) block 16)) outStride
+      (j * 128 * outStride + i * 16 + block * 128 * outStride) 128) o
+
+def mainLoopM (input : Array UInt8) (inStride outStride cMain i : Nat) (choose : Nat → Nat → Nat) : Nat → Nat → Array UInt8 → Array UInt8
+  | 0, _, o => o
+  | fuel + 1, j, o =>
+    if j < cMain then
+      let g := min (if choose i j = 0 then 4 else choose i j) (cMain - j)
+      mainLoopM input inStride outStride cMain i choose fuel (j + g) (groupM input inStride outStride i j g o)
+    else o
+
+def restColsM (input : Array UInt8) (inStride outStride cRest i j : Nat) (o : Array UInt8) : Array UInt8 :=
+  storeSquareA o (transpose128A (loadSquare input inStride (i * 128 * inStride + j * 16) 0 (cRest / 8))) outStride (j * 128 * outStride + i * 16) cRest
+
+def transposeIntoM (input : Array UInt8) (rows : Nat) (choose : Nat → Nat → Nat) (o0 : Array UInt8) : Array UInt8 :=
+  let cols := input.size * 8 / rows
+  let inStride := cols / 8
+  let outStride := rows / 8
+  let cMain := cols / 128
+  let cRest := cols % 128
+  (List.range (rows / 128)).foldl (fun o i =>
+    let o := mainLoopM input inStride outStride cMain i choose cMain 0 o
+    if 0 < cRest then restColsM input inStride outStride cRest i cMain o else o) o0
+
+def transposeAvxM (input : Array UInt8) (rows : Nat) (choose : Nat → Nat → Nat) : Array UInt8 :=
+  transposeIntoM input rows choose (Array.replicate input.size 0)
+
+end Outer
+end PolytuneModel.Avx
